@@ -185,6 +185,7 @@ type Sorts struct {
 	structInfo  map[string]*structInfo
 	opaque      map[string]bool
 	traces      map[string]bool
+	zeroArrs    map[string]string
 	typeTags    map[string]int // types.Type string -> tag
 	tagOrder    []string
 	ifaceIDs    map[string]int
@@ -198,7 +199,7 @@ type structInfo struct {
 }
 
 func newSorts() *Sorts {
-	return &Sorts{structDecl: map[string]string{}, structInfo: map[string]*structInfo{}, opaque: map[string]bool{}, traces: map[string]bool{}, typeTags: map[string]int{}, ifaceIDs: map[string]int{}}
+	return &Sorts{structDecl: map[string]string{}, structInfo: map[string]*structInfo{}, opaque: map[string]bool{}, traces: map[string]bool{}, zeroArrs: map[string]string{}, typeTags: map[string]int{}, ifaceIDs: map[string]int{}}
 }
 
 func mangle(s string) string {
@@ -326,6 +327,21 @@ func (s *Sorts) traceSort(elemSort string) string {
 	return "Tr_" + mangle(elemSort)
 }
 
+func isValueTerm(t string) bool {
+	if t == "true" || t == "false" {
+		return true
+	}
+	if strings.HasPrefix(t, "(mk_") || strings.HasPrefix(t, "((as const") || strings.HasPrefix(t, "(- ") {
+		return !strings.Contains(t, "str_empty") && !strings.Contains(t, "rv_zero") && !strings.Contains(t, "float_zero") && !strings.Contains(t, "zero_") && !strings.Contains(t, "zeroarr_")
+	}
+	for _, c := range t {
+		if c < '0' || c > '9' {
+			return false
+		}
+	}
+	return true
+}
+
 // zero returns the zero value term of a sort.
 func (s *Sorts) zero(sortName string) Term {
 	switch sortName {
@@ -345,7 +361,14 @@ func (s *Sorts) zero(sortName string) Term {
 		return Term{"rv_zero", "RV"}
 	}
 	if strings.HasPrefix(sortName, "(Array ") {
-		return Term{fmt.Sprintf("((as const %s) %s)", sortName, s.zero(arrayElemSort(sortName)).S), sortName}
+		ez := s.zero(arrayElemSort(sortName))
+		if isValueTerm(ez.S) {
+			return Term{fmt.Sprintf("((as const %s) %s)", sortName, ez.S), sortName}
+		}
+		// constant arrays need a value element in cvc5: use a named array with an axiom instead
+		name := "zeroarr_" + mangle(sortName)
+		s.zeroArrs[name] = fmt.Sprintf("(declare-const %s %s)\n(assert (forall ((i %s)) (! (= (select %s i) %s) :pattern ((select %s i)))))", name, sortName, arrayIdxSort(sortName), name, ez.S, name)
+		return Term{name, sortName}
 	}
 	if info, ok := s.structInfo[sortName]; ok {
 		if len(info.Fields) == 0 {
@@ -387,7 +410,10 @@ func (s *Sorts) preamble(extraSorts []string, ufuncs []string, axioms []string) 
 (assert (forall ((a Str) (b Str)) (! (= (slen (sconcat a b)) (+ (slen a) (slen b))) :pattern ((sconcat a b)))))
 (assert (forall ((a Str) (b Str) (i Int)) (! (=> (and (<= 0 i) (< i (slen a))) (= (sat (sconcat a b) i) (sat a i))) :pattern ((sat (sconcat a b) i)))))
 (assert (forall ((a Str) (b Str) (i Int)) (! (=> (and (<= (slen a) i) (< i (+ (slen a) (slen b)))) (= (sat (sconcat a b) i) (sat b (- i (slen a))))) :pattern ((sat (sconcat a b) i)))))
+(declare-fun idx_add (Int Int) Int)
+(assert (forall ((a Int) (b Int)) (! (= (idx_add a b) (+ a b)) :pattern ((idx_add a b)))))
 (declare-fun implements (Int Int) Bool)
+(declare-fun is_ptr_tag (Int) Bool)
 (declare-fun box_Str (Str) Int)
 (declare-fun unbox_Str (Int) Str)
 (assert (forall ((s Str)) (! (= (unbox_Str (box_Str s)) s) :pattern ((box_Str s)))))
@@ -435,6 +461,15 @@ func (s *Sorts) preamble(extraSorts []string, ufuncs []string, axioms []string) 
 		fmt.Fprintf(&b, "(declare-fun snoc_%s (Tr_%s %s) Tr_%s)\n(declare-fun trlen_%s (Tr_%s) Int)\n(declare-fun trlast_%s (Tr_%s) %s)\n(declare-fun trinit_%s (Tr_%s) Tr_%s)\n", n, n, es, n, n, n, n, n, es, n, n, n)
 		fmt.Fprintf(&b, "(assert (forall ((t Tr_%s) (v %s)) (! (and (= (trlen_%s (snoc_%s t v)) (+ (trlen_%s t) 1)) (= (trlast_%s (snoc_%s t v)) v) (= (trinit_%s (snoc_%s t v)) t)) :pattern ((snoc_%s t v)))))\n", n, es, n, n, n, n, n, n, n, n)
 		fmt.Fprintf(&b, "(assert (forall ((t Tr_%s)) (! (>= (trlen_%s t) 0) :pattern ((trlen_%s t)))))\n", n, n, n)
+	}
+	zn := make([]string, 0, len(s.zeroArrs))
+	for n := range s.zeroArrs {
+		zn = append(zn, n)
+	}
+	sort.Strings(zn)
+	for _, n := range zn {
+		b.WriteString(s.zeroArrs[n])
+		b.WriteString("\n")
 	}
 	for _, u := range ufuncs {
 		b.WriteString(u)
